@@ -504,4 +504,51 @@ Proof.
 Qed.
 End Loop.
 End Run.
-Check exec_order_gen.
+
+(* =====================  O1: einsum path, every valid order, every position  ===================== *)
+Theorem exec_order_einsum n sl arr e0 l r order :
+  NoDup (leaves (Node l r)) -> valid_order (Node l r) order ->
+  fst (exec_program n sl arr e0 (program n sl true (Node l r) order) (Node l r))
+    = map (dim n) (lkeys (root_legs n sl))
+  /\ forall pos, snd (exec_program n sl arr e0 (program n sl true (Node l r) order) (Node l r)) pos
+                 = run_root n sl arr e0 (Node l r) pos.
+Proof.
+  intros ND Hv.
+  destruct (exec_order_gen n sl arr e0 true (fun _ _ => True) (fun _ _ => I) (Node l r) I ND
+              (fun H => False_ind _ (Bool.diff_true_false H)) order Hv) as [H1 H2].
+  split; [exact H1|]. intros pos. apply H2. exact I.
+Qed.
+
+(* =====================  O3: tensordot path, given the per-node step equivalence  =====================
+   tdot_step_ok: for a node with can_dot, whose operands have the expected shapes, the value
+   stored by tensordot(+transpose) has the shape of, and agrees at every position of the
+   right length with, the value the einsum instruction would store. *)
+Definition tdot_step_ok_at (n : net) (sl : list slinfo) (e0 : env) (t : tree) : Prop :=
+  forall b l r (L R : sarr),
+  In (Node l r) (post_sub t) -> (b = true <-> Node l r = t) ->
+  can_dot n sl b (Node l r) = true ->
+  fst L = map (dim n) (inds_sub n sl l) -> fst R = map (dim n) (inds_sub n sl r) ->
+  fst (tdot_val n sl b l r L R) = map (dim n) (inds n sl b (Node l r))
+  /\ forall pos, length pos = length (inds n sl b (Node l r)) ->
+       snd (tdot_val n sl b l r L R) pos =
+       einsum2 n e0 (inds_sub n sl l) (inds_sub n sl r) (inds n sl b (Node l r)) (snd L) (snd R) pos.
+
+Theorem exec_order_any_pref n sl arr e0 pe l r order :
+  NoDup (leaves (Node l r)) -> valid_order (Node l r) order ->
+  tdot_step_ok_at n sl e0 (Node l r) ->
+  fst (exec_program n sl arr e0 (program n sl pe (Node l r) order) (Node l r))
+    = map (dim n) (lkeys (root_legs n sl))
+  /\ forall pos, length pos = length (lkeys (root_legs n sl)) ->
+       snd (exec_program n sl arr e0 (program n sl pe (Node l r) order) (Node l r)) pos
+       = run_root n sl arr e0 (Node l r) pos.
+Proof.
+  intros ND Hv Hstep.
+  destruct (exec_order_gen n sl arr e0 pe (fun shape pos => length pos = length shape)
+              (fun e li => eq_trans (map_length e li) (eq_sym (map_length (dim n) li)))
+              (Node l r) I ND) with (order := order) as [H1 H2].
+  - intros _ b l' r' L R Hin Hb Hcd HL HR.
+    destruct (Hstep b l' r' L R Hin Hb Hcd HL HR) as [S1 S2].
+    split; [exact S1|]. intros pos Hpos. apply S2. cbv beta in Hpos. rewrite Hpos, S1. apply map_length.
+  - exact Hv.
+  - split; [exact H1|]. intros pos Hpos. apply H2. cbv beta. rewrite H1. rewrite Hpos. symmetry. apply map_length.
+Qed.
